@@ -229,7 +229,7 @@ class Outcome:
             rp = vlib.write_replay(self.pid, {"property": self.pid, "predicate": pred, "cfg": cfg, "cfgmode": "literal",
                                                "events": events})
             print("VIOLATION property=%s replay=%s" % (self.pid, rp))
-            print("  predicate %s false at the last of %d events: %s" % (pred, len(events), json.dumps(events[-1])[:300]))
+            print("  predicate %s false at the last of %d events: %s" % (pred, len(events), json.dumps(events[-1] if events else "(at the start of the life)")[:300]))
         for tf, line, kind in self.drift[:5]:
             print("DRIFT property=%s step=%d kind=%s (output differs from the model's exact prediction; not a verdict)"
                   % (self.pid, line, kind))
